@@ -148,17 +148,46 @@ class Fns:
         return self.lB @ q + self.lg + self.lk * q**3
 
 
-def build_system(sp):
+class _FaultLog:
+    def __init__(self):
+        self.margin = float("inf")
+
+
+def build_system(sp, fault=None, flog=None):
+    """The real system for `sp`.  `fault` = {"where": "c"|"j", "idx": i, "thr": x, "mode": "value"|"linalg"|"nan"}:
+    the user constraint (resp. Jacobian) function raises ValueError / LinAlgError (or returns NaNs) at every
+    position with q[idx] > thr."""
     import mici
 
     f = Fns(sp)
+
+    def hit(q, where):
+        if fault is None or fault["where"] != where:
+            return False
+        if flog is not None:
+            flog.margin = min(flog.margin, abs(float(q[fault["idx"]]) - fault["thr"]))
+        return bool(q[fault["idx"]] > fault["thr"])
+
+    def fail(shape):
+        if fault["mode"] == "value":
+            raise ValueError("injected fault")
+        if fault["mode"] == "linalg":
+            raise np.linalg.LinAlgError("injected fault")
+        return np.full(shape, np.nan)
+
+    def constr(q):
+        return fail((f.c,)) if hit(q, "c") else f.constr(q)
+
+    def jacob(q):
+        return fail((f.c, sp["n"])) if hit(q, "j") else f.jacob(q)
+
     cg, cj, cm = sp["conv"]
     grad = (lambda q: (f.grad_ell(q), f.ell(q))) if cg else f.grad_ell
-    jac = (lambda q: (f.jacob(q), f.constr(q))) if cj else f.jacob
-    mhp = (lambda q: (f.mhp(q), f.jacob(q), f.constr(q))) if cm else f.mhp
+    jac = (lambda q: (jacob(q), constr(q))) if cj else jacob
+    mhp = (lambda q: (f.mhp(q), jacob(q), constr(q))) if cm else f.mhp
     mk = sp["metric_kind"]
     metric = None if mk == "identity" else (np.diag(f.M).copy() if mk == "diagonal" else f.M.copy())
-    kw = {"neg_log_dens": f.ell, "constr": f.constr, "metric": metric, "grad_neg_log_dens": grad, "jacob_constr": jac}
+    kw = {"neg_log_dens": f.ell, "constr": constr, "metric": metric, "grad_neg_log_dens": grad, "jacob_constr": jac}
     if sp["cls"] == "gauss":
         return mici.systems.GaussianDenseConstrainedEuclideanMetricSystem(**kw, mhp_constr=mhp), f
     if sp["cls"] == "gram":
@@ -204,13 +233,16 @@ def fvec(s):
 # real solver run
 
 
-def run_real_solver(sp, sk, t, tol, max_iters, max_ls):
+def run_real_solver(sp, sk, t, tol, max_iters, max_ls, fault=None):
     """Apply the real h2_flow and the real solver. Returns dict with outcome and observations."""
+    import re
+
     import mici
     from mici.errors import ConvergenceError
     from mici.states import ChainState
 
-    system, f = build_system(sp)
+    flog = _FaultLog()
+    system, f = build_system(sp, fault, flog)
     prev = ChainState(pos=np.array(sp["q0"]), mom=np.array(sp["p0"]), dir=1)
     state = prev.copy()
     system.h2_flow(state, t)
@@ -226,14 +258,16 @@ def run_real_solver(sp, sk, t, tol, max_iters, max_ls):
     if sk == "ls":
         kw["max_line_search_iters"] = max_ls
     solver = getattr(mici.solvers, SOLVERS[sk])
-    out = {"pos_flow": pos_flow, "mom_flow": mom_flow, "norms": norms, "f": f, "system": system, "prev": prev}
+    out = {"pos_flow": pos_flow, "mom_flow": mom_flow, "norms": norms, "f": f, "system": system, "prev": prev, "flog": flog}
     try:
         res = _with_timeout(lambda: solver(state, prev, t, system, **kw))
         out.update(kind="ok", pos=np.array(res.pos), mom=np.array(res.mom))
     except ConvergenceError as e:
         msg = str(e)
         reason = "diverged" if "diverged" in msg else ("maxiters" if "did not converge" in msg else "fault")
-        out.update(kind="err", reason=reason, pos=np.array(state.pos), msg=msg)
+        m = re.search(r"at iteration (\d+)", msg)
+        out.update(kind="err", reason=reason, pos=np.array(state.pos), msg=msg,
+                   iter=int(m.group(1)) if m else (0 if "before first iteration" in msg else None))
     except UnboundLocalError:
         out.update(kind="unbound")
     return out
@@ -294,6 +328,8 @@ def oracle_solve(sp, sk, t, tol, out):
     if not res < tol[0]:
         bad.append((f"{name} returned unconverged", f"returned with |c(q)| = {res:.3e} >= constraint_tol {tol[0]:.1e}"))
     Pqp, Ppp = flow_matrices(f, sp, abs(t))
+    if np.linalg.cond(Ppp) > 1e4:  # cos(omega t) ~ 0 for a Gaussian-split system: multipliers not recoverable
+        return bad
     dpos, dmom = q - out["pos_flow"], p - out["mom_flow"]
     mu = -np.sign(t) * np.linalg.solve(Ppp, dmom)
     scale = 1.0 + float(np.max(np.abs(out["pos_flow"]))) + float(np.max(np.abs(mu)))
@@ -325,20 +361,36 @@ def run_real_step(sp, sk, t, n_inner, tol, max_iters, max_ls, rev_tol):
     kw = {"constraint_tol": tol[0], "position_tol": tol[1], "divergence_tol": tol[2], "max_iters": max_iters}
     if sk == "ls":
         kw["max_line_search_iters"] = max_ls
+    real_solver = getattr(mici.solvers, SOLVERS[sk])
+    solves = []  # (time_step sign, number of outer iterations) of every projection solve of the step
+
+    def counting_solver(state, state_prev, time_step, system, **kwargs):
+        norms = []
+
+        def rec_norm(v):
+            r = mici.solvers.maximum_norm(v)
+            norms.append((len(v), float(r)))
+            return r
+
+        try:
+            return real_solver(state, state_prev, time_step, system, **kwargs, norm=rec_norm)
+        finally:
+            solves.append((1 if time_step * t > 0 else -1, outer_iterations(norms, sk, sp["c"], max_ls)))
+
     integ = mici.integrators.ConstrainedLeapfrogIntegrator(
         system, step_size=abs(t), n_inner_step=n_inner, reverse_check_tol=rev_tol,
-        projection_solver=getattr(mici.solvers, SOLVERS[sk]), projection_solver_kwargs=kw,
+        projection_solver=counting_solver, projection_solver_kwargs=kw,
     )
     state = ChainState(pos=np.array(sp["q0"]), mom=np.array(sp["p0"]), dir=1 if t > 0 else -1)
     try:
         new = _with_timeout(lambda: integ.step(state), 20)
-        return {"kind": "ok", "pos": np.array(new.pos), "mom": np.array(new.mom), "f": f}
+        return {"kind": "ok", "pos": np.array(new.pos), "mom": np.array(new.mom), "f": f, "solves": solves}
     except ConvergenceError as e:
         msg = str(e)
         reason = "diverged" if "diverged" in msg else ("maxiters" if "did not converge" in msg else "fault")
-        return {"kind": "conv", "reason": reason, "f": f}
+        return {"kind": "conv", "reason": reason, "f": f, "solves": solves}
     except NonReversibleStepError:
-        return {"kind": "nonrev", "f": f}
+        return {"kind": "nonrev", "f": f, "solves": solves}
     except (mici.errors.IntegratorError, ValueError, np.linalg.LinAlgError, mici.errors.LinAlgError):
         # ValueError / LinAlgError inside a step are re-raised as IntegratorError by Integrator.step
         return {"kind": "other", "f": f}
@@ -429,7 +481,16 @@ def solve_case(rng, ctx, *, ls_stress=False):
         max_ls = int(rng.choice([0, 1, 2, 3, 10]))
     if sk == "qn":
         max_iters = min(max_iters, 7)
-    return {"spec": sp, "solver": sk, "t": t, "tol": tol, "max_iters": max_iters, "max_ls": max_ls}
+    fault = None
+    if not ls_stress and rng.random() < 0.3:
+        i = int(rng.integers(sp["n"]))
+        fault = {"where": str(rng.choice(["c", "j"])), "idx": i, "thr": sp["q0"][i] + dy(rng, -0.25, 0.5, 16),
+                 "mode": str(rng.choice(["value", "linalg", "nan"]))}
+        # bare return conventions: with the tuple conventions the user's Jacobian function also evaluates the
+        # constraint (and its cached auxiliary value hides later constraint calls), which the oracles of the
+        # model keep separate
+        sp["conv"] = [sp["conv"][0], 0, 0]
+    return {"spec": sp, "solver": sk, "t": t, "tol": tol, "max_iters": max_iters, "max_ls": max_ls, "fault": fault}
 
 
 def solve_request(case, out):
@@ -447,6 +508,7 @@ def solve_request(case, out):
         "solve", case["solver"], str(n), str(c), *qt, flow, common.vstr(out["pos_flow"]), common.vstr(out["mom_flow"]),
         common.vstr(sp["q0"]), common.fstr(case["t"]), common.fstr(tol[0]), common.fstr(tol[1]), common.fstr(tol[2]),
         str(case["max_iters"]), str(case["max_ls"]),
+        "none" if not case.get("fault") else f"{case['fault']['where']}:{case['fault']['idx']}:{common.fstr(case['fault']['thr'])}",
     ])
 
 
@@ -456,7 +518,7 @@ def check_solve_case(ctx, case, model_line=None):
     sp, sk, t, tol = case["spec"], case["solver"], case["t"], case["tol"]
     name = SOLVERS[sk]
     try:
-        out = run_real_solver(sp, sk, t, tol, case["max_iters"], case["max_ls"])
+        out = run_real_solver(sp, sk, t, tol, case["max_iters"], case["max_ls"], case.get("fault"))
     except _Timeout:
         ctx.violation(f"{name} hang", f"{name} did not return within 10 s", {"solve_case": case})
         return None, True
@@ -480,7 +542,7 @@ def compare_solve(ctx, case, out, mline):
     parts = mline.split(" ")
     if mline == "bad-op":
         raise common.MachineryError(f"driver rejected request for {case}")
-    if near_tie(out["norms"], tol, sk, case["spec"]["c"], case["max_ls"]):
+    if near_tie(out["norms"], tol, sk, case["spec"]["c"], case["max_ls"]) or out["flog"].margin < 1e-6:
         ctx.count("near_tie")
         return
     what = None
@@ -503,6 +565,8 @@ def compare_solve(ctx, case, out, mline):
             what = f"impl raised ConvergenceError ({out['reason']}), model says {mline[:60]}"
         elif parts[1] != out["reason"]:
             what = f"ConvergenceError reason differs: impl {out['reason']} ({out['msg'][:80]}) model {parts[1]}"
+        elif out["reason"] == "fault" and out.get("iter") is not None and int(parts[2]) != out["iter"]:
+            what = f"fault reported at iteration {out['iter']} ({out['msg'][:60]}), model at {parts[2]}"
         elif not close_vec(out["pos"], fvec(parts[3]), rtol=1e-6, atol=1e-8):
             what = f"position at failure differs: impl {out['pos'].tolist()} model {fvec(parts[3]).tolist()}"
     if what:
@@ -573,23 +637,31 @@ def compare_step(ctx, case, out, mline):
 
 
 def run(ctx: common.Ctx):
+    import warnings
+
+    # diverging solver runs overflow by design; the resulting RuntimeWarnings are noise
+    warnings.filterwarnings("ignore", category=RuntimeWarning)
+    np.seterr(all="ignore")
     rng = common.rng_for(ctx)
     replay_corpus(ctx)
     ctx.rule = (
         "solve: random quadric constraints (linear/sphere/ellipsoid/indefinite/mixed; n 2-4, c 1-2), identity/diagonal/dense "
         "metric, Hausdorff/Gram/Gaussian-split system, all 3 solvers, |t| in 1/16..12/16 (line-search stress: 0.5..2, "
-        "max_line_search_iters 1-2), max_iters 0..8; non-trivial = solver performed >= 1 position update. "
+        "max_line_search_iters 1-2), max_iters 0..8; 30% of the runs with an injected fault (constraint or Jacobian function "
+        "raising ValueError / LinAlgError or returning NaN on a half-space of positions); non-trivial = solver performed "
+        ">= 1 position update. "
         "step: real ConstrainedLeapfrogIntegrator.step vs model (Euclidean systems), n_inner 1-4 (curved: 1-2); "
         "direct oracles on every successful solve/step/sample_momentum/projection"
     )
     ctx.assumptions += [
         "model is exact over Q: float rounding of the implementation is absorbed by rtol 1e-7 comparisons and near-tie skipping",
-        "IEEE NaN paths (np.isnan(error)) are not modelled",
+        "IEEE NaN paths (np.isnan(error)) are not modelled: NaN-returning constraint functions are checked by the direct oracle only",
+        "fault-injected runs use the bare return conventions of the user functions",
         "metric inverse / Gram inverse are exact checked inverses in the model (A*X = 1 decided)",
     ]
     # -- projection + momentum: correspondence and direct oracle ------------------------------
     reqs, metas = [], []
-    for _ in range(ctx.n(60, 600)):
+    for _ in range(ctx.n(100, 1500)):
         sp = gen_spec(rng)
         n = sp["n"]
         z = dyvec(rng, n, -2, 2, 8)
@@ -614,8 +686,8 @@ def run(ctx: common.Ctx):
             ctx.disagreement(
                 f"project_onto_cotangent_space differs: impl {pp.tolist()} model {fvec(mline.split(' ')[1]).tolist()}", case)
     # -- solvers -----------------------------------------------------------------------------
-    cases = [solve_case(rng, ctx) for _ in range(ctx.n(220, 1600))]
-    cases += [solve_case(rng, ctx, ls_stress=True) for _ in range(ctx.n(260, 1600))]
+    cases = [solve_case(rng, ctx) for _ in range(ctx.n(300, 4000))]
+    cases += [solve_case(rng, ctx, ls_stress=True) for _ in range(ctx.n(300, 4000))]
     outs, reqs, idx = [], [], []
     for k, case in enumerate(cases):
         out, _ = check_solve_case(ctx, case)
@@ -629,7 +701,11 @@ def run(ctx: common.Ctx):
         ctx.count(f"solve:{case['solver']}:{out['kind']}" + (f":{out['reason']}" if out["kind"] == "err" else ""))
         ctx.count(f"solve-family:{sp['kind']}:{sp['metric_kind']}:{sp['cls']}")
         # the exact model's rationals grow doubly exponentially with the iteration count
-        if outer_iterations(out["norms"], case["solver"], sp["c"], case["max_ls"]) <= 6:
+        if case.get("fault"):
+            ctx.count(f"solve-fault:{case['fault']['where']}:{case['fault']['mode']}:{out['kind']}")
+        if case.get("fault") and case["fault"]["mode"] == "nan":
+            ctx.count("solve:nan-fault-direct-oracle-only")
+        elif outer_iterations(out["norms"], case["solver"], sp["c"], case["max_ls"]) <= 6:
             reqs.append(solve_request(case, out))
             idx.append(k)
         else:
@@ -637,7 +713,7 @@ def run(ctx: common.Ctx):
     for k, mline in zip(idx, common.run_driver("C04", reqs, timeout=1500), strict=True):
         compare_solve(ctx, cases[k], outs[k], mline)
     # -- integrator steps --------------------------------------------------------------------
-    scases = [step_case(rng) for _ in range(ctx.n(60, 360))]
+    scases = [step_case(rng) for _ in range(ctx.n(90, 900))]
     souts, reqs, idx = [], [], []
     for k, case in enumerate(scases):
         out, _ = check_step_case(ctx, case)
@@ -647,12 +723,19 @@ def run(ctx: common.Ctx):
         sp = case["spec"]
         ctx.case({"step": [case["solver"], sp["kind"], sp["metric_kind"], sp["cls"], case["t"], case["n_inner"]]}, nontrivial=out["kind"] == "ok")
         ctx.count(f"step:{case['solver']}:n_inner={case['n_inner']}:{out['kind']}")
-        reqs.append(step_request(case))
-        idx.append(k)
+        # longest chain of dependent solver iterations: all forward solves + the last reverse solve; the exact
+        # model's rationals roughly triple in size per iteration, so long chains are left to the direct oracle
+        sol = out.get("solves", [])
+        depth = sum(n for sg, n in sol if sg > 0) + ([n for sg, n in sol if sg < 0] or [0])[-1]
+        if depth <= (9 if sp["c"] == 1 else 6):
+            reqs.append(step_request(case))
+            idx.append(k)
+        else:
+            ctx.count("step:model-skipped-long-iteration-chain")
     for k, mline in zip(idx, common.run_driver("C04", reqs, timeout=1500), strict=True):
         compare_step(ctx, scases[k], souts[k], mline)
     # -- steps of Gaussian-split systems and long inner loops: direct oracle only --------------
-    for _ in range(ctx.n(60, 400)):
+    for _ in range(ctx.n(90, 1000)):
         case = step_case(rng)
         case["spec"] = gen_spec(rng, force_class=str(rng.choice(["gauss", "gram", "hausdorff"])))
         case["n_inner"] = int(rng.integers(1, 5))
